@@ -15,15 +15,77 @@ from __future__ import annotations
 import collections
 import contextlib
 
+import numpy as np
 import onnx
+import onnx.reference
 
 from harness import c03_check as K
 from harness import c03_run as R
 from harness import graphlit
 from harness.common import clist, parse_nat_list
 
-REQUIRES = ["OV.Graph.Syntax", "OV.Opt.FoldInst", "OV.Opt.Dce", "OV.Opt.Cse"]
-MODELLED = {"RemoveUnusedNodesPass": "dce", "CommonSubexpressionEliminationPass": "cse"}
+REQUIRES = ["OV.Graph.Syntax", "OV.Opt.FoldInst", "OV.Opt.Dce", "OV.Opt.Cse", "OV.Opt.Use", "OV.Opt.Inits"]
+MODELLED = {"RemoveUnusedNodesPass": "dce", "CommonSubexpressionEliminationPass": "cse", "LiftConstantsToInitializersPass": "lift",
+            "LiftSubgraphInitializersToMainGraphPass": "hoist", "DeduplicateInitializersPass": "dedup"}
+
+
+def _tensor_token(t):
+    """the token of an initializer: ("value", ATensor dtype dims bytes) - bytes as graphlit prints tensor attributes"""
+    import hashlib
+    from harness.common import cstr, cz
+    raw = onnx.numpy_helper.to_array(t).tobytes() if t.data_type != onnx.TensorProto.STRING else b"\x00".join(t.string_data)
+    payload = clist(list(raw), cz) if len(raw) <= 64 else clist(list(hashlib.sha1(raw).digest()), cz)
+    return f"({cstr('value')}, ATensor {cz(t.data_type)} {clist(t.dims, cz)} {payload})"
+
+
+def all_initializers(g, acc=None):
+    acc = [] if acc is None else acc
+    acc.extend(g.initializer)
+    for n in g.node:
+        for a in n.attribute:
+            if a.type == onnx.AttributeProto.GRAPH:
+                all_initializers(a.g, acc)
+    return acc
+
+
+def tab_lit(model):
+    from harness.common import cstr
+    return clist([f"({cstr(t.name)}, {_tensor_token(t)})" for t in all_initializers(model.graph)])
+
+
+def lifted_values_agree(before, after):
+    """LiftConstants: every new initializer has the element type, dims and bytes of the Constant node it replaces (None) or a
+    description of the first difference"""
+    consts = {}
+
+    def walk(g):
+        for n in g.node:
+            if n.op_type == "Constant" and n.domain in ("", "ai.onnx") and len(n.attribute) == 1 and len(n.output) == 1:
+                consts[n.output[0]] = n
+            for a in n.attribute:
+                if a.type == onnx.AttributeProto.GRAPH:
+                    walk(a.g)
+    walk(before.graph)
+    old = {t.name for t in all_initializers(before.graph)}
+    for t in all_initializers(after.graph):
+        if t.name in old or t.name not in consts:
+            continue
+        n = consts[t.name]
+        try:
+            want = onnx.reference.ReferenceEvaluator(onnx.helper.make_model(onnx.helper.make_graph(
+                [n], "c", [], [onnx.helper.make_empty_tensor_value_info(n.output[0])]),
+                opset_imports=list(after.opset_import), ir_version=after.ir_version)).run(None, {})[0]
+        except Exception as e:
+            return f"{t.name}: the Constant node cannot be evaluated: {e}"[:160]
+        got = onnx.numpy_helper.to_array(t)
+        want = np.asarray(want)
+        if want.dtype.kind in "OUS" or got.dtype.kind in "OUS":
+            same = want.shape == got.shape and [str(x) for x in want.reshape(-1)] == [x.decode() if isinstance(x, bytes) else str(x) for x in got.reshape(-1)]
+        else:
+            same = want.dtype == got.dtype and want.shape == got.shape and want.tobytes() == got.tobytes()
+        if not same:
+            return f"{t.name}: Constant {want.dtype}{want.shape} became initializer {got.dtype}{got.shape} with other bytes"
+    return None
 
 
 @contextlib.contextmanager
@@ -224,6 +286,19 @@ class PassChecker:
             stats["not-compared:cse-attribute-kind"] += 1
             return
         b, a = graphlit.graph_lit(normalised(before).graph), graphlit.graph_lit(normalised(after).graph)
+        if MODELLED[name] in ("lift", "dedup"):
+            try:
+                b = (b, tab_lit(before))
+            except Exception:
+                stats["not-compared:initializer-not-printable"] += 1
+                return
+            if MODELLED[name] == "lift":
+                d = lifted_values_agree(before, after)
+                stats["lift:value-pairs-checked"] += 1
+                if d is not None:
+                    self.ctx.violation(f"{self.pid}:pass:LiftConstantsToInitializersPass:value-changed", f"LiftConstantsToInitializersPass: {d}",
+                                       K.replay_doc(case, "optimize_ir", opts, True, {"pass": name, "step": k, "before_b64": R.model_b64(before)}))
+                    stats["violations"] += 1
         sig = (name, b, a)
         if sig in self.seen:
             stats["duplicate-pair"] += 1
@@ -238,7 +313,10 @@ class PassChecker:
             chunk = pend[start:start + 150]
             defs = []
             for i, (kind, b, a, *_rest) in enumerate(chunk):
-                defs.append(f"Definition b_{i} : graph := {b}.\nDefinition a_{i} : graph := {a}.\n")
+                tab = "[]"
+                if isinstance(b, tuple):
+                    b, tab = b
+                defs.append(f"Definition b_{i} : graph := {b}.\nDefinition a_{i} : graph := {a}.\nDefinition t_{i} : itab := {tab}.\n")
                 fuel = f"(2 * (depth_graph a_{i} + depth_graph b_{i}) + 4)"
                 if kind == "dce":
                     # the IR remembers uses by the bodies of nodes removed by EARLIER passes (not visible in the serialized model), so the
@@ -246,9 +324,20 @@ class PassChecker:
                     # second component: the real result is exactly one sweep of the model
                     defs.append(f"Definition v_{i} : bool * bool := (graph_eqb {fuel} (trim (dce_fix 6 b_{i})) (trim (dce_fix 6 a_{i})), "
                                 f"graph_eqb {fuel} (trim (dce b_{i})) (trim a_{i})).\n")
-                else:
+                elif kind == "cse":
                     defs.append(f"Definition v_{i} : bool * bool := (graph_eqb {fuel} (trim (cse b_{i})) (trim a_{i}), "
                                 f"match cse_checked b_{i} with Some _ => true | None => false end).\n")
+                elif kind == "lift":
+                    # graph (initializer lists as sets, at every depth) as the model says; second: the side conditions of the theorem
+                    defs.append(f"Definition v_{i} : bool * bool := match lift b_{i} t_{i} with Some (g, t) => (graph_eqb {fuel} g a_{i}, "
+                                f"nodupb (map fst t) && forallb (fun x => match tab_get x (collect (depth_graph b_{i}) b_{i}) with None => true | Some _ => false end) (binds_graph g)) "
+                                f"| None => (false, false) end.\n")
+                elif kind == "hoist":
+                    # None = a lifted initializer had to be renamed (not modelled): counted, not compared
+                    defs.append(f"Definition v_{i} : bool * bool := match hoist b_{i} with Some g => (graph_eqb {fuel} g a_{i}, true) | None => (true, false) end.\n")
+                else:
+                    defs.append(f"Definition v_{i} : bool * bool := (graph_eqb {fuel} (fst (dedup b_{i} t_{i})) a_{i}, "
+                                f"let 'Graph gi ii ns go := b_{i} in dedup_guard b_{i} t_{i} (snd (dedup_walk t_{i} (gi ++ go) [] ii))).\n")
             lst = clist([f"v_{i}" for i in range(len(chunk))])
             body = ("Fixpoint trim_g (d : nat) (used : list vname) (g : graph) : graph := match d with O => g | S d' => let 'Graph i ii ns o := g in "
                     "Graph i ii (map (fun n => let 'Node dm o2 ins u a s := n in Node dm o2 ins (filter (fun x => mem x used) u) a "
@@ -268,8 +357,10 @@ class PassChecker:
                 stats[f"compared:{kind}"] += 1
                 if kind == "cse":
                     stats["cse:inside-theorem(merge_guard)" if i not in outside else "cse:outside-theorem"] += 1
-                else:
+                elif kind == "dce":
                     stats["dce:exactly-one-sweep-of-the-model" if i not in outside else "dce:real-pass-kept-more(uses by bodies of nodes removed earlier)"] += 1
+                else:
+                    stats[f"{kind}:inside-theorem-side-conditions" if i not in outside else f"{kind}:outside-theorem-or-not-modelled(rename)"] += 1
                 if i not in bad:
                     stats[f"agree:{kind}"] += 1
                     continue
@@ -289,9 +380,11 @@ class PassChecker:
                         break
                 if not found:
                     ctx.tie_broken("correspondence", f"passes:{name}:{case.ident}:step{k}",
-                                   f"the result of the real pass is not the result of the model (Opt/{'Dce' if kind == 'dce' else 'Cse'}.v); features={case.features}"
+                                   f"the result of the real pass is not the result of the model (Opt/{ {'dce': 'Dce', 'cse': 'Cse'}.get(kind, 'Inits') }.v); features={case.features}"
                                    f"\nBEFORE {onnx.printer.to_text(before.graph)[:900]}\nAFTER {onnx.printer.to_text(after.graph)[:900]}")
-        n_cmp = stats["compared:dce"] + stats["compared:cse"]
-        ctx.obligation("correspondence per pass: RemoveUnusedNodesPass = Opt/Dce.v and CommonSubexpressionEliminationPass = Opt/Cse.v on every "
-                       "observed (before, after) pair of the real pipeline", stats["disagree:dce"] + stats["disagree:cse"] == 0 and n_cmp > 0, f"{dict(stats)}")
+        kinds = ("dce", "cse", "lift", "hoist", "dedup")
+        n_cmp = sum(stats["compared:" + k] for k in kinds)
+        ctx.obligation("correspondence per pass: RemoveUnusedNodesPass = Opt/Dce.v, CommonSubexpressionEliminationPass = Opt/Cse.v, LiftConstantsToInitializers / "
+                       "LiftSubgraphInitializersToMainGraph / DeduplicateInitializers = Opt/Inits.v on every observed (before, after) pair of the real pipeline",
+                       sum(stats["disagree:" + k] for k in kinds) == 0 and all(stats["compared:" + k] > 0 for k in kinds), f"{dict(stats)}")
         return stats
